@@ -44,6 +44,7 @@ func resetKeys() {
 	kr = &keyring{}
 	sm2kxResp, sm2kxS1 = nil, nil
 	sm9kxRB, sm9kxSB = nil, nil
+	sm9kxIni, sm9kxResp = nil, nil
 	algCTMemo = map[string]algCT{}
 	pemBlocks = map[int]*pem.Block{}
 }
